@@ -160,4 +160,21 @@ def listRaw (C : Codec) (key : Bytes) (s : KV) : Option Entry :=
   | some v => loadValue C v
   | none => none
 
+/-! ### hard links -/
+
+/-- the hard link id token of an entry ("-" = none) -/
+def hardLinkId (e : Entry) : String := e.tail.getD 1 "-"
+
+/-- `FindEntry` and the wrapper's `ListDirectoryEntries` run `maybeReadHardLink`: an entry with a hard
+    link id is replaced by the blob kept under that id (`setHardLink` writes it on every insert/update
+    of ANY link), then `AfterEntryDeserialization` -/
+def readResolved (own : Entry) (shared : Option Entry) : Entry :=
+  afterEntry (if hardLinkId own = "-" then own else match shared with
+    | some s => s
+    | none => own)
+
+/-- the native prefixed listing (`Filer.ListDirectoryEntries` on leveldb*) hands out the entry's own
+    blob: neither `maybeReadHardLink` nor `AfterEntryDeserialization` -/
+def readRaw (own : Entry) (_shared : Option Entry) : Entry := own
+
 end SwV.Model.C24
